@@ -33,9 +33,15 @@ def cases(seed, tier):
             p['keys'] = gen.rand_keys(rng, p['key'])
         else:
             p = gen.rand_profile(rng, allow_odd=rng.random() < 0.5)
+        if rng.random() < 0.3:
+            # strict-kex marker together with ChaCha20, CBC ciphers and ETM MACs: the advisory note lists several names
+            if 'kex-strict-s-v00@openssh.com' not in p['kex']:
+                p['kex'] = p['kex'] + ['kex-strict-s-v00@openssh.com']
+            p['enc'] = list(dict.fromkeys(p['enc'] + ['chacha20-poly1305@openssh.com', 'aes128-cbc', 'aes256-cbc', '3des-cbc']))
+            p['mac'] = list(dict.fromkeys(p['mac'] + ['hmac-sha2-256-etm@openssh.com', 'hmac-sha2-512-etm@openssh.com', 'umac-128-etm@openssh.com']))
         p['pre'] = rng.choice([[], [], ['hello']])
         sets = [rng.choice(TEXT_SETS), rng.choice(LEVEL_SETS), rng.choice(JSON_SETS), rng.choice(JSON_SETS), rng.choice(TEXT_SETS + LEVEL_SETS)]
-        yield {'profile': p, 'sets': sets, 'nets': [gen.rand_net(rng) for _ in range(3)], 'no_color_env': rng.random() < 0.2, 'fresh': i % 4 == 0,
+        yield {'profile': p, 'sets': sets, 'nets': [gen.rand_net(rng) for _ in range(3)], 'no_color_env': rng.random() < 0.2, 'fresh': i % 2 == 0,
                'hashseed': rng.choice(['0', '1', '4242', str(rng.getrandbits(20))]), 'pseed': rng.getrandbits(32)}
 
 
